@@ -64,7 +64,7 @@ LEVEL = {
          "bytes / accepting the same numeral provably agree in the model; the per-run check additionally compares the implementation's answers pairwise across the five types.",
          "The BigInt exponent path is modelled as Int arithmetic; its agreement with the i32 path on the implementation is by the pairwise comparison."),
  "C16": ("Theorems C16_le_roundtrip, C16_be_inverse, C16_try_accepts, C16_try_verbatim, C17_len_error over all byte lists; the substance is the correspondence (index-probe arrays detect any "
-         "transposed index in the literal big-endian index lists).", ""),
+         "transposed index in the literal big-endian index lists). The six literal index lists of to_be_bytes/from_be_bytes are also translated out of src/bitstring/fixed{32,64,128}.rs on every run (tools/gen_be.py) and proved to be the reversal for every array of the type's length (12 generated theorems + C16_be_gather, DESIGN §10.12).", ""),
  "C17": ("Overflow errors: C01_encodeFinite / C09_nan_payload prove the needed width named is larger than the capacity, a multiple of 4 and sufficient; length errors: C17_len_error; "
          "syntax errors: first-bad-byte / unexpected-end theorems of the parser package; integers and floats refused by the TryFrom impls: C17_conv_int / C17_conv_float "
          "(the error of the model's TryFrom is wouldOverflow(capacity, needed) with needed larger, a multiple of 4, sufficient, and the capacity really too small), judgeConvErr*_model; "
@@ -94,7 +94,7 @@ def main():
             "level_claimed": {"category": cat, "text": text + f" [{n} theorems audited per run]", "design_ref": "DESIGN.md §10.4, §5 " + i},
             "level_note": COMMON_NOTE + note,
             "technique": ("Lean 4 machine-checked proof about a hand-written model + per-run model/implementation correspondence check with the Lean specification as oracle"
-                          + ("; the published constants are translated from the source on every run and re-proved by kernel evaluation" if i in ("C18", "C09") else "")
+                          + ("; the published constants are translated from the source on every run and re-proved by kernel evaluation" if i in ("C18", "C09") else "; the literal big-endian index lists are translated from the source on every run and proved to be the reversal" if i == "C16" else "")
                           if i != "C05" else "Lean 4 machine-checked proof that a checked model with every Rust panic site explicit never panics + catch_unwind execution of every operation in 2 profiles x 3 feature sets"),
         })
     m = {
